@@ -35,7 +35,9 @@ extern FastRational ac_fr[STU_MAXN];        // numbers of the constant nodes
 static_assert(sizeof(ArithLogic) <= 16384 && sizeof(FastRational) == 24 && STU_MAXN <= 64, "native replay storage in arithctor_rt.c too small");
 static PTRef ac_vbuf[40][8]; static int ac_nvbuf;     // buffers of minisat vec<PTRef> (fixed capacity 8)
 static int ac_ibuf[24][8]; static int ac_nibuf;       // buffers of minisat vec<int>
-static uint64_t ac_heap[12][32]; static unsigned ac_nheap;    // operator new (std::vector<Entry> of mkPlus): one 256-byte block per request, reset per run
+// operator new (the std::vector<Entry> of mkPlus): one zero-initialised 256-byte block per request (separate objects, so that a store
+// rewrites 32 words and not the whole pool), reset per run
+static uint64_t ac_heap0[32], ac_heap1[32], ac_heap2[32], ac_heap3[32], ac_heap4[32], ac_heap5[32], ac_heap6[32], ac_heap7[32]; static unsigned ac_nheap;
 static int created, U, UA;      // U = nodes of the initial universe, UA = the arithmetic ones among them (0..UA-1)
 
 // a * b for |a| < 128, |b| < 2^20, written without a multiplier circuit (a full-width multiplier against the solver does not scale)
@@ -194,8 +196,11 @@ void stub_cap_int(vec<int> * v, int m) {
     v->cap = VCAP;
 }
 void * stub_opnew(unsigned long n) {
-    if (n > 256 || ac_nheap >= 12) { overflow = true; ac_nheap = 0; }
-    return ac_heap[ac_nheap++];
+    if (n > 256 || ac_nheap >= 8) { overflow = true; ac_nheap = 0; }
+    switch (ac_nheap++) {
+    case 0: return ac_heap0; case 1: return ac_heap1; case 2: return ac_heap2; case 3: return ac_heap3;
+    case 4: return ac_heap4; case 5: return ac_heap5; case 6: return ac_heap6; default: return ac_heap7;
+    }
 }
 bool stub_isUF(void *, PTRef) { return false; }
 void stub_termSort(ArithLogic * l, vec<PTRef> & v) { l->ArithLogic::termSort(v); }            // virtual slot -> the real ArithLogic::termSort
@@ -266,6 +271,25 @@ static bool isConstNode(PTRef a) { return nodes[a.x].kind == K_CONST; }
 static bool isSumNode(PTRef a) { return nodes[a.x].kind == K_PLUS; }
 
 // ---------------------------------------------------------------- checks
+// Reachability witnesses: the tuple loops count what happened (concrete counters); every entry ends in finish<MASK>(), which holds the
+// witnesses that this entry's argument set must reach (a witness that an entry cannot reach would make it vacuous by the checker's rules).
+enum : unsigned { W_REJ = 1, W_REJ2SUMS = 2, W_RET = 4, W_RET_EXIST = 8, W_RET_NEW = 16, W_DISTRIB = 32, W_FOLDED = 64, W_ZERO_NL = 128,
+                  W_NEWSUM = 256, W_ATOM = 512, W_DECIDED = 1024 };
+static int n_rej, n_rej2sums, n_ret, n_ret_exist, n_ret_new, n_distrib, n_folded, n_zero_nl, n_newsum, n_atom, n_decided, n_tuples;
+template <unsigned M> static void finish(int expected_tuples) {
+    VASSERT(n_tuples == expected_tuples, "harness: every argument tuple of the entry was executed");
+    if constexpr ((M & W_REJ) != 0) { if (n_rej > 0) { VWITNESS("rejected-as-nonlinear"); } }
+    if constexpr ((M & W_REJ2SUMS) != 0) { if (n_rej2sums > 0) { VWITNESS("rejected-constant-times-two-sums"); } }
+    if constexpr ((M & W_RET) != 0) { if (n_ret > 0) { VWITNESS("returned-a-term"); } }
+    if constexpr ((M & W_RET_EXIST) != 0) { if (n_ret_exist > 0) { VWITNESS("returned-existing-term"); } }
+    if constexpr ((M & W_RET_NEW) != 0) { if (n_ret_new > 0) { VWITNESS("returned-new-term"); } }
+    if constexpr ((M & W_DISTRIB) != 0) { if (n_distrib > 0) { VWITNESS("constant-distributed-over-sum"); } }
+    if constexpr ((M & W_FOLDED) != 0) { if (n_folded > 0) { VWITNESS("constants-folded-to-new-constant"); } }
+    if constexpr ((M & W_ZERO_NL) != 0) { if (n_zero_nl > 0) { VWITNESS("returned-zero-for-nonlinear-product-with-zero-factor"); } }
+    if constexpr ((M & W_NEWSUM) != 0) { if (n_newsum > 0) { VWITNESS("new-sum-built"); } }
+    if constexpr ((M & W_ATOM) != 0) { if (n_atom > 0) { VWITNESS("atom-built"); } }
+    if constexpr ((M & W_DECIDED) != 0) { if (n_decided > 0) { VWITNESS("decided-to-true-or-false"); } }
+}
 static void check_returned(PTRef r, int32_t expected, bool expectBool) {
     VASSERT(!bad_ref && !overflow && !bad_sym, "constructor only touches nodes of the table and builds well-formed nodes (harness capacity not exceeded)");
     VASSERT(ref_ok(r), "result is a term of the table");
@@ -273,12 +297,13 @@ static void check_returned(PTRef r, int32_t expected, bool expectBool) {
         VASSERT(!badv[r.x], "harness: the value of the returned term stayed in the exactly computed range");
         VASSERT(isB[r.x] == expectBool, "result has the sort of the operator");
         VASSERT(val[r.x] == expected, "value(result) == operator(values of the arguments) under the valuation");
-        if ((int)r.x < U) { VWITNESS("returned-existing-term"); } else { VWITNESS("returned-new-term"); }
+        n_ret++;
+        if ((int)r.x < U) n_ret_exist++; else n_ret_new++;
     }
 }
 
 template <int N> static void times_tuple(PTRef const * a) {
-    reset_run();
+    reset_run(); n_tuples++;
     bool bad = false; int32_t e = 1; int nonconst = 0;
     for (int i = 0; i < N; i++) { e = smul(val[a[i].x], e, bad); if (!isConstNode(a[i])) nonconst++; }
     VASSERT(!bad, "harness: expected product within the computed range");
@@ -291,18 +316,19 @@ template <int N> static void times_tuple(PTRef const * a) {
     bool zeroFactor = false; for (int i = 0; i < N; i++) if (a[i].x == N_ZERO) zeroFactor = true;
     if (nonlinear) {
         VASSERT(nonconst >= 2, "a product with at most one non-constant factor is linear and is not rejected");
-        VWITNESS("rejected-as-nonlinear");
+        n_rej++;
         int sums = 0; for (int i = 0; i < N; i++) if (isSumNode(a[i])) sums++;
-        if (sums >= 2 && nonconst == 2) { VWITNESS("rejected-constant-times-two-sums"); }
+        if (sums >= 2 && nonconst == 2) n_rej2sums++;
     } else if (!other_exc) {
-        check_returned(r, e, false);
         // C29: that a product which genuinely depends on two non-constant factors is never silently returned as a linear term
-        // follows from the value assertion above (a linear term differs from the product under some valuation in [-7,7]^2)
-        if (nonconst >= 2 && zeroFactor) { VWITNESS("returned-zero-for-nonlinear-product-with-zero-factor"); }
-        if (ref_ok(r) && nodes[r.x].kind == K_PLUS && (int)r.x >= U) { VWITNESS("constant-distributed-over-sum"); }
-        if (ref_ok(r) && isConstNode(r) && (int)r.x >= U) { VWITNESS("constants-folded-to-new-constant"); }
+        // follows from the value assertion (a linear term differs from the product under some valuation in [-7,7]^2)
+        check_returned(r, e, false);
+        if (nonconst >= 2 && zeroFactor) n_zero_nl++;
+        if (ref_ok(r) && isSumNode(r) && (int)r.x >= U) n_distrib++;
+        if (ref_ok(r) && isConstNode(r) && (int)r.x >= U) n_folded++;
     }
 }
+
 // ---------------------------------------------------------------- argument sets and entries
 // ALL: every arithmetic node (thorough tier).  Quick tier: QA = one node of every kind -- 0, -1, a constant, a variable, a product over
 // the other variable, a 2-argument sum, the 3-argument sum with products and a constant; QB = QA without 0 and -1.
@@ -313,75 +339,82 @@ static const uint32_t QA[NQA] = {N_ZERO, N_MONE, N_2, N_X, N_NEGY, N_XP1, N_S3};
 static const uint32_t * const QB = QA + 2;
 #define ROWS(lo, hi) (ALL + (lo)), ((hi) - (lo))
 
-static void times2(uint32_t const * l0, int n0, uint32_t const * l1, int n1) {
+static int times2(uint32_t const * l0, int n0, uint32_t const * l1, int n1) {
     build_universe();
     for (int i = 0; i < n0; i++) for (int j = 0; j < n1; j++) { PTRef a[2] = {PTRef{l0[i]}, PTRef{l1[j]}}; times_tuple<2>(a); }
+    return n0 * n1;
 }
-static void times3(uint32_t a0, uint32_t const * l1, int n1, uint32_t const * l2, int n2) {
+static int times3(uint32_t a0, uint32_t const * l1, int n1, uint32_t const * l2, int n2) {
     build_universe();
     for (int i = 0; i < n1; i++) for (int j = 0; j < n2; j++) { PTRef a[3] = {PTRef{a0}, PTRef{l1[i]}, PTRef{l2[j]}}; times_tuple<3>(a); }
+    return n1 * n2;
 }
 // quick tier
-extern "C" void h_mkTimes2_q1() { times2(QA, 4, QA, NQA); }
-extern "C" void h_mkTimes2_q2() { times2(QA + 4, 3, QA, NQA); }
-extern "C" void h_mkTimes3_q_const() { times3(N_2, QB, NQB, QB, NQB); }
-extern "C" void h_mkTimes3_q_sum() { times3(N_XP1, QB, NQB, QB, NQB); }
-// the defect repaired by ce45400 as single tuples: (* 2 (+ x 1) (+ y 1)) in every argument order
+extern "C" void h_mkTimes2_q1() { finish<W_REJ | W_RET | W_RET_EXIST | W_RET_NEW | W_DISTRIB | W_FOLDED>(times2(QA, 4, QA, NQA)); }
+extern "C" void h_mkTimes2_q2() { finish<W_REJ | W_RET | W_RET_EXIST | W_RET_NEW | W_DISTRIB>(times2(QA + 4, 3, QA, NQA)); }
+extern "C" void h_mkTimes3_q_const() { finish<W_REJ | W_REJ2SUMS | W_RET | W_RET_NEW | W_DISTRIB | W_FOLDED>(times3(N_2, QB, NQB, QB, NQB)); }
+extern "C" void h_mkTimes3_q_sum() { finish<W_REJ | W_REJ2SUMS | W_RET | W_RET_NEW | W_DISTRIB>(times3(N_XP1, QB, NQB, QB, NQB)); }
+// the defect repaired by ce45400 as single tuples: (* 2 (+ x 1) (+ y 1)) in every argument order, and a linear control (* 2 3 (+ x 1))
 extern "C" void h_mkTimes3_two_sums() {
     build_universe();
-    static const uint32_t p[6][3] = {{N_2, N_XP1, N_YP1}, {N_2, N_YP1, N_XP1}, {N_XP1, N_2, N_YP1}, {N_XP1, N_YP1, N_2}, {N_YP1, N_XP1, N_2}, {N_YP1, N_2, N_XP1}};
-    for (int k = 0; k < 6; k++) { PTRef a[3] = {PTRef{p[k][0]}, PTRef{p[k][1]}, PTRef{p[k][2]}}; times_tuple<3>(a); }
+    static const uint32_t p[7][3] = {{N_2, N_XP1, N_YP1}, {N_2, N_YP1, N_XP1}, {N_XP1, N_2, N_YP1}, {N_XP1, N_YP1, N_2}, {N_YP1, N_XP1, N_2}, {N_YP1, N_2, N_XP1}, {N_2, N_M3, N_XP1}};
+    for (int k = 0; k < 7; k++) { PTRef a[3] = {PTRef{p[k][0]}, PTRef{p[k][1]}, PTRef{p[k][2]}}; times_tuple<3>(a); }
+    finish<W_REJ | W_REJ2SUMS | W_RET | W_DISTRIB>(7);
 }
 // thorough tier: all pairs, all triples
-extern "C" void h_mkTimes2_a() { times2(ROWS(0, 5), ALL, N_ARITH); }
-extern "C" void h_mkTimes2_b() { times2(ROWS(5, 10), ALL, N_ARITH); }
-extern "C" void h_mkTimes2_c() { times2(ROWS(10, 14), ALL, N_ARITH); }
-#define T3(k) extern "C" void h_mkTimes3_##k##_a() { times3(k, ROWS(0, 7), ALL, N_ARITH); } extern "C" void h_mkTimes3_##k##_b() { times3(k, ROWS(7, 14), ALL, N_ARITH); }
-T3(0) T3(1) T3(2) T3(3) T3(4) T3(5) T3(6) T3(7) T3(8) T3(9) T3(10) T3(11) T3(12) T3(13)
+extern "C" void h_mkTimes2_a() { finish<W_REJ | W_RET | W_RET_EXIST | W_RET_NEW | W_DISTRIB | W_FOLDED>(times2(ROWS(0, 5), ALL, N_ARITH)); }
+extern "C" void h_mkTimes2_b() { finish<W_REJ | W_RET | W_RET_EXIST | W_RET_NEW | W_DISTRIB | W_FOLDED>(times2(ROWS(5, 10), ALL, N_ARITH)); }
+extern "C" void h_mkTimes2_c() { finish<W_REJ | W_RET | W_RET_EXIST | W_RET_NEW | W_DISTRIB>(times2(ROWS(10, 14), ALL, N_ARITH)); }
+extern "C" void h_mkTimes3_0_a() { finish<W_RET | W_RET_EXIST | W_ZERO_NL>(times3(0, ROWS(0, 7), ALL, N_ARITH)); }     // first factor 0: always 0
+extern "C" void h_mkTimes3_0_b() { finish<W_RET | W_RET_EXIST | W_ZERO_NL>(times3(0, ROWS(7, 14), ALL, N_ARITH)); }
+#define T3(k) extern "C" void h_mkTimes3_##k##_a() { finish<W_REJ | W_RET>(times3(k, ROWS(0, 7), ALL, N_ARITH)); } extern "C" void h_mkTimes3_##k##_b() { finish<W_REJ | W_RET>(times3(k, ROWS(7, 14), ALL, N_ARITH)); }
+T3(1) T3(2) T3(3) T3(4) T3(5) T3(6) T3(7) T3(8) T3(9) T3(10) T3(11) T3(12) T3(13)
 
 enum Op { O_PLUS, O_MINUS, O_LEQ, O_GEQ, O_LT, O_GT, O_EQ };
 template <int N> static void sum_tuple(Op op, PTRef const * a) {
-    reset_run();
-    int32_t e = val[a[0].x];
-    for (int i = 1; i < N; i++) e = op == O_MINUS ? e - val[a[i].x] : e + val[a[i].x];
-    if (op == O_MINUS && N == 1) e = -e;
+    reset_run(); n_tuples++;
+    uint32_t e = (uint32_t)val[a[0].x];              // unsigned arithmetic: no sanitizer branch on a symbolic value; the values are small
+    for (int i = 1; i < N; i++) e = op == O_MINUS ? e - (uint32_t)val[a[i].x] : e + (uint32_t)val[a[i].x];
+    if (op == O_MINUS && N == 1) e = 0u - e;
     vec<PTRef> args; for (int i = 0; i < N; i++) args.push(a[i]);
     PTRef r = PTRef_Undef;
     try { r = op == O_MINUS ? L->mkMinus(std::move(args)) : L->mkPlus(std::move(args)); }
     catch (...) { other_exc = true; }
     VASSERT(!other_exc, "sum / difference / negation never throws");
     if (!other_exc) {
-        check_returned(r, e, false);
-        if (ref_ok(r) && isConstNode(r)) { VWITNESS("folded-to-constant"); }
-        if (ref_ok(r) && isSumNode(r) && (int)r.x >= U) { VWITNESS("new-sum"); }
+        check_returned(r, (int32_t)e, false);
+        if (ref_ok(r) && isConstNode(r) && (int)r.x >= U) n_folded++;
+        if (ref_ok(r) && isSumNode(r) && (int)r.x >= U) n_newsum++;
     }
 }
-static void sums2(Op op, uint32_t const * l0, int n0, uint32_t const * l1, int n1) {
+static int sums2(Op op, uint32_t const * l0, int n0, uint32_t const * l1, int n1) {
     build_universe();
     for (int i = 0; i < n0; i++) for (int j = 0; j < n1; j++) { PTRef a[2] = {PTRef{l0[i]}, PTRef{l1[j]}}; sum_tuple<2>(op, a); }
+    return n0 * n1;
 }
-static void plus3(uint32_t a0, uint32_t const * l1, int n1, uint32_t const * l2, int n2) {
+static int plus3(uint32_t a0, uint32_t const * l1, int n1, uint32_t const * l2, int n2) {
     build_universe();
     for (int i = 0; i < n1; i++) for (int j = 0; j < n2; j++) { PTRef a[3] = {PTRef{a0}, PTRef{l1[i]}, PTRef{l2[j]}}; sum_tuple<3>(O_PLUS, a); }
+    return n1 * n2;
 }
 extern "C" void h_mkNeg() {
     build_universe();
     for (int i = 0; i < N_ARITH; i++) { PTRef a[1] = {PTRef{(uint32_t)i}}; sum_tuple<1>(O_MINUS, a); }
+    finish<W_RET | W_RET_EXIST | W_RET_NEW | W_FOLDED | W_NEWSUM>(N_ARITH);
 }
-extern "C" void h_dbg_plus() { build_universe(); PTRef a[2] = {PTRef{N_X}, PTRef{N_X}}; sum_tuple<2>(O_PLUS, a); }
-extern "C" void h_mkPlus2_q1() { sums2(O_PLUS, QA, 4, QA, NQA); }
-extern "C" void h_mkPlus2_q2() { sums2(O_PLUS, QA + 4, 3, QA, NQA); }
-extern "C" void h_mkMinus2_q() { sums2(O_MINUS, QB, NQB, QB, NQB); }
-extern "C" void h_mkPlus2_a() { sums2(O_PLUS, ROWS(0, 7), ALL, N_ARITH); }
-extern "C" void h_mkPlus2_b() { sums2(O_PLUS, ROWS(7, 14), ALL, N_ARITH); }
-extern "C" void h_mkMinus2_a() { sums2(O_MINUS, ROWS(0, 7), ALL, N_ARITH); }
-extern "C" void h_mkMinus2_b() { sums2(O_MINUS, ROWS(7, 14), ALL, N_ARITH); }
-#define P3(k) extern "C" void h_mkPlus3_##k##_a() { plus3(k, ROWS(0, 7), ALL, N_ARITH); } extern "C" void h_mkPlus3_##k##_b() { plus3(k, ROWS(7, 14), ALL, N_ARITH); }
+extern "C" void h_mkPlus2_q1() { finish<W_RET | W_RET_EXIST | W_RET_NEW | W_FOLDED | W_NEWSUM>(sums2(O_PLUS, QA, 4, QA, NQA)); }
+extern "C" void h_mkPlus2_q2() { finish<W_RET | W_RET_EXIST | W_RET_NEW | W_NEWSUM>(sums2(O_PLUS, QA + 4, 3, QA, NQA)); }
+extern "C" void h_mkMinus2_q() { finish<W_RET | W_RET_EXIST | W_RET_NEW | W_NEWSUM>(sums2(O_MINUS, QB, NQB, QB, NQB)); }
+extern "C" void h_mkPlus2_a() { finish<W_RET | W_RET_EXIST | W_RET_NEW | W_FOLDED | W_NEWSUM>(sums2(O_PLUS, ROWS(0, 7), ALL, N_ARITH)); }
+extern "C" void h_mkPlus2_b() { finish<W_RET | W_RET_NEW | W_NEWSUM>(sums2(O_PLUS, ROWS(7, 14), ALL, N_ARITH)); }
+extern "C" void h_mkMinus2_a() { finish<W_RET | W_RET_EXIST | W_RET_NEW | W_FOLDED | W_NEWSUM>(sums2(O_MINUS, ROWS(0, 7), ALL, N_ARITH)); }
+extern "C" void h_mkMinus2_b() { finish<W_RET | W_RET_NEW | W_NEWSUM>(sums2(O_MINUS, ROWS(7, 14), ALL, N_ARITH)); }
+#define P3(k) extern "C" void h_mkPlus3_##k##_a() { finish<W_RET | W_RET_NEW | W_NEWSUM>(plus3(k, ROWS(0, 7), ALL, N_ARITH)); } extern "C" void h_mkPlus3_##k##_b() { finish<W_RET | W_RET_NEW | W_NEWSUM>(plus3(k, ROWS(7, 14), ALL, N_ARITH)); }
 P3(3) P3(7) P3(9) P3(12)
 
 #ifdef ARITH_CMP
 static void cmp_pair(Op op, PTRef a, PTRef b) {
-    reset_run();
+    reset_run(); n_tuples++;
     int32_t x = val[a.x], y = val[b.x];
     bool e = op == O_LEQ ? x <= y : op == O_GEQ ? x >= y : op == O_LT ? x < y : op == O_GT ? x > y : x == y;
     PTRef r = PTRef_Undef;
@@ -391,23 +424,26 @@ static void cmp_pair(Op op, PTRef a, PTRef b) {
     VASSERT(!other_exc, "a comparison of two linear terms never throws");
     if (!other_exc) {
         check_returned(r, e, true);
-        if (ref_ok(r) && (nodes[r.x].kind == K_LEQ || nodes[r.x].kind == K_EQ || nodes[r.x].kind == K_NOT)) { VWITNESS("atom-built"); }
-        if (ref_ok(r) && (int)r.x < U && (int)r.x >= UA) { VWITNESS("decided-to-true-or-false"); }
+        if (ref_ok(r) && (nodes[r.x].kind == K_LEQ || nodes[r.x].kind == K_EQ || nodes[r.x].kind == K_NOT)) n_atom++;
+        if (ref_ok(r) && (int)r.x < U && (int)r.x >= UA) n_decided++;
     }
 }
-static void cmps(Op op, uint32_t const * l0, int n0, uint32_t const * l1, int n1) {
+static int cmps(Op op, uint32_t const * l0, int n0, uint32_t const * l1, int n1) {
     build_universe();
     for (int i = 0; i < n0; i++) for (int j = 0; j < n1; j++) cmp_pair(op, PTRef{l0[i]}, PTRef{l1[j]});
+    return n0 * n1;
 }
-extern "C" void h_mkLeq_q1() { cmps(O_LEQ, QA, 4, QA, NQA); }
-extern "C" void h_mkLeq_q2() { cmps(O_LEQ, QA + 4, 3, QA, NQA); }
-extern "C" void h_mkEq_q() { cmps(O_EQ, QB, NQB, QB, NQB); }
+#define W_CMP (W_RET | W_ATOM | W_DECIDED)
+extern "C" void h_mkLeq_q1() { finish<W_CMP>(cmps(O_LEQ, QA, 4, QA, NQA)); }
+extern "C" void h_mkLeq_q2() { finish<W_CMP>(cmps(O_LEQ, QA + 4, 3, QA, NQA)); }
+extern "C" void h_mkEq_q() { finish<W_CMP>(cmps(O_EQ, QB, NQB, QB, NQB)); }
 // mkBinaryGeq(a,b) = mkBinaryLeq(b,a), mkBinaryLt = not mkBinaryGeq, mkBinaryGt = not mkBinaryLeq: a variable and a sum against everything in QB
 extern "C" void h_mkGeqLtGt_q() {
     static const uint32_t two[2] = {N_X, N_XP1};
     build_universe();
     for (int i = 0; i < 2; i++) for (int j = 0; j < NQB; j++) { cmp_pair(O_GEQ, PTRef{two[i]}, PTRef{QB[j]}); cmp_pair(O_LT, PTRef{two[i]}, PTRef{QB[j]}); cmp_pair(O_GT, PTRef{two[i]}, PTRef{QB[j]}); }
+    finish<W_CMP>(30);
 }
-#define CMP2(name, op) extern "C" void h_##name##_a() { cmps(op, ROWS(0, 7), ALL, N_ARITH); } extern "C" void h_##name##_b() { cmps(op, ROWS(7, 14), ALL, N_ARITH); }
+#define CMP2(name, op) extern "C" void h_##name##_a() { finish<W_CMP>(cmps(op, ROWS(0, 7), ALL, N_ARITH)); } extern "C" void h_##name##_b() { finish<W_CMP>(cmps(op, ROWS(7, 14), ALL, N_ARITH)); }
 CMP2(mkLeq, O_LEQ) CMP2(mkGeq, O_GEQ) CMP2(mkLt, O_LT) CMP2(mkGt, O_GT) CMP2(mkEq, O_EQ)
 #endif
